@@ -131,19 +131,47 @@ func stressC12(d time.Duration, seed uint64) result {
 							return
 						default:
 						}
+						// a probe by the goroutine that made the change, after the change returned: nobody
+						// else touches this root / this path, so the answer is determined (a request that
+						// starts after Add/Route returned must see it, one that starts after
+						// Remove/RemoveRoute returned must not)
+						probe := func(path string, want int, after string) {
+							rec := httptest.NewRecorder()
+							func() {
+								defer func() {
+									if p := recover(); p != nil {
+										fail("panic while serving during registration changes", fmt.Sprint(p))
+									}
+								}()
+								if r.Chance(1, 2) {
+									c.ServeHTTP(rec, httptest.NewRequest("GET", path, nil))
+								} else {
+									c.Dispatch(rec, httptest.NewRequest("GET", path, nil))
+								}
+							}()
+							count("probe-after-" + after)
+							if rec.Code != want {
+								fail("a request issued after "+after+" had returned was answered according to a registration state that no longer (or never) existed",
+									fmt.Sprintf("GET %s router=%s: status %d, want %d", path, router, rec.Code, want))
+							}
+						}
 						switch r.Intn(3) {
 						case 0:
 							ws := mkService(tmpRoot, 1, true)
 							c.Add(ws)
 							count("Add")
+							probe(tmpRoot+"/r0/7", 200, "Add")
 							c.Remove(ws)
 							count("Remove")
+							probe(tmpRoot+"/r0/7", 404, "Remove")
 						case 1:
 							p := fmt.Sprintf("/x%d_%d", m, i%3)
 							dyn.Route(dyn.GET(p).To(func(req *restful.Request, resp *restful.Response) { resp.Write([]byte("x")) }))
 							count("Route")
+							probe("/dyn"+p, 200, "Route")
 							dyn.RemoveRoute("/dyn"+p, "GET")
 							count("RemoveRoute")
+							probe("/dyn"+p, 404, "RemoveRoute")
 						default:
 							c.RegisteredWebServices()
 						}
